@@ -766,6 +766,14 @@ func (m *msim) evDeliver() {
 		label = "stale-key"
 		r.Fault("result.stale_key")
 	}
+	if variant >= 2 && variant <= 6 && m.expectMatch(fence) {
+		// The perturbed fence must really be stale. A duplicated completion of
+		// the previous batch whose op id is bumped by one can collide with the op
+		// id of the batch now in flight; no worker can produce that, so move the
+		// forged id out of the way instead of handing the machine a result that
+		// carries the current fence with another batch's range.
+		fence.OpID ^= 1 << 40
+	}
 	if variant != 1 {
 		m.execute(e, variant == 7 && !e.quorum)
 	}
